@@ -2,6 +2,7 @@
 mod drive;
 mod indep;
 mod model;
+mod qfam;
 mod refm;
 mod sup;
 mod wfam;
@@ -19,6 +20,10 @@ fn main() {
     let code = match id {
         "C01" => run_check(&wfam::C01, &args),
         "C02" => run_check(&wfam::C02, &args),
+        "C03" => run_check(&qfam::C03, &args),
+        "C04" => run_check(&qfam::C04, &args),
+        "C05" => run_check(&qfam::C05, &args),
+        "C09" => run_check(&wfam::C09, &args),
         "C06" => run_check(&wfam::C06, &args),
         "C07" => run_check(&wfam::C07, &args),
         "C08" => run_check(&wfam::C08, &args),
